@@ -329,13 +329,12 @@ PROPS["C07"] = dict(
 )
 
 PROPS["C13"] = dict(
-    disabled=True, na_reason="model and correspondence tie built; theorems are being proved",
     level="proof",
     lean_module="RefmtProofs.Props.C13",
-    theorems=[],
+    theorems=['Refmt.C13.stream', 'Refmt.C13.done_is_complete_modTags', 'Refmt.C13.done_is_complete_fixed', 'Refmt.C13.no_early_done', 'Refmt.C13.rest_irrelevant', 'Refmt.C13.reject_unknown_field', 'Refmt.C13.reject_struct_length_mismatch', 'Refmt.C13.reject_duplicate_key', 'Refmt.C13.reject_array_overflow', 'Refmt.C13.reject_wrong_kind_scalar', 'Refmt.C13.total_fixed', 'Refmt.C13.complete_plain_rt', 'Refmt.C13.complete_plain_sorted', 'Refmt.C13.complete_plain_perm'],
     streams=[dict(name="unmarshal", gen="unmarshal", rule="obj")],
     title="the unmarshaller accepts exactly the token streams that fit the target",
-    claim="(work in progress)",
+    claim="Theorems (every type table, atlas, transform library, target, token list): the unmarshaller model signals completion only when the tokens consumed form exactly one well-formed item (the flattening of a token tree, modulo tags on close tokens, which it ignores) and leaves the rest untouched; no proper prefix of an accepted item is accepted (done exactly on the last token); what follows the item is irrelevant; unknown struct fields, duplicate map keys, struct lengths that disagree, overflow of fixed arrays and wrong-kind scalars are errors at the offending token; under a consistent atlas whose transform/tag delegation chains are bounded no token list makes the model panic; every rendering the marshaller produces for a value of a plain type is accepted, completes on its last token and reconstructs the specified value (exactly with entries in marshalling order; = normV for sorted maps; = normV up to map entry order in general). Statements found false while proving (tags on close tokens; fuel constant and self-delegating transforms; order of map entries in the model's value representation) are kept as *_statement with their counterexamples. Tie: prefix-pruned exhaustive token sequences x every zoo target x 4 atlases through the real Unmarshaller.",
     rule_text="token sequences x target types: prefix-pruned exhaustive sequences (<= 3, thorough 4) over a 39-symbol token alphabet with "
               "matching / non-matching keys and tags, for every zoo target under 4 atlases; integers of every magnitude into every numeric "
               "kind (C09); real obj.Unmarshaller stepped token by token under recover; flags and the resulting Go value compared",
@@ -368,13 +367,27 @@ def rule_roundtrip(body, I, M):
 RULES["roundtrip"] = rule_roundtrip
 
 PROPS["C01"] = dict(
-    disabled=True, na_reason="model and correspondence tie built; theorems are being proved",
     level="proof",
     lean_module="RefmtProofs.Props.C01",
-    theorems=[],
+    theorems=["Refmt.C01.transport_cbor", "Refmt.C01.unm_canon_fixed", "Refmt.C01.cbor_eq_tokens", "Refmt.C01.transport_json",
+              "Refmt.C01.unm_retype_typed_partial", "Refmt.C01.json_eq_tokens_typed_partial", "Refmt.C01.viaTokens_plain",
+              "Refmt.C01.roundtrip_plain_cbor", "Refmt.C01.roundtrip_plain_json", "Refmt.C13.complete_plain_perm"],
+    extra_modules=["RefmtProofs.Props.C13"],
     streams=[dict(name="roundtrip", gen="roundtrip", rule="roundtrip")],
     title="Marshal then Unmarshal returns the original value",
-    claim="(work in progress)",
+    claim="Theorems. (a) Transport, for EVERY type, atlas, transform library and value: whatever token list the marshaller model "
+          "emits (numbers a Go value can hold, strings within the decoder cap) the CBOR encoder model accepts it with done at the end "
+          "and the CBOR decoder model returns the same tokens up to the spelling of non-negative integers; no unmarshal machine can see "
+          "that difference; hence viaCbor v = viaTokens v: CBOR adds nothing to and removes nothing from the token-level round trip "
+          "(marshaller straight into unmarshaller). Same for JSON on what JSON carries (tokens come back re-typed: lengths unknown, "
+          "integral floats as integers, invalid UTF-8 replaced) for typed targets, whenever the token-level round trip succeeds. (b) "
+          "Completeness: on the plain kinds (scalars of every numeric kind, strings, byte slices/arrays, slices, arrays, string-keyed "
+          "maps, pointers to those) the token-level round trip returns the specified value normV, which differs from the input only in "
+          "what the property lists (pointer to something serializing as null comes back nil; map entries are compared as a set). (a)+(b) "
+          "= roundtrip_plain_cbor / roundtrip_plain_json. For struct maps see C11.clone_equal_struct; unions, transforms and untyped slots "
+          "are covered by (a) plus the correspondence stream, where the real round trip is compared with the model composition and with "
+          "normV. Statements found false while proving are kept with counterexamples (unm_canon: int 2^63 in an untyped slot; "
+          "json_eq_tokens_typed: ill-typed value float 1.0 at type int).",
     rule_text="values of ~95 zoo types x 5 atlas configurations x {CBOR, JSON with random Line/Indent}: type-directed random values "
               "(boundary numbers, nil/empty containers, nested pointers, untyped slots holding what the equality can see through, unions, "
               "transforms, tagged types) through the real MarshalAtlased/UnmarshalAtlased; compared with the model composition "
@@ -423,6 +436,34 @@ def rule_obj_all(body, I, M):
     return r
 RULES["obj_all"] = rule_obj_all
 PROPS["C09"]["streams"] = [dict(name="store", gen="store", rule="obj_all")]
+
+def rule_sortmodes(body, I, M):
+    """C08: the ORDER of the autogenerated fields follows the requested mode, whatever modes were requested before
+    (only the relative order of the names both sides map is compared: which names are mapped is C19's business)."""
+    i = I.get("I", "")
+    if _isdef(body, i):
+        return dict(corr_ok=True, prop_ok=True, nontrivial=False, bucket="def", why="")
+    if _bad_impl(i):
+        return dict(corr_ok=False, prop_ok=False, nontrivial=True, bucket="crash", why="implementation " + i)
+    names = lambda x: [f.split(":")[0] for f in (x or "-").split(";") if f != "-"]
+    ni, nm = names(i), names(M.get("M"))
+    common = set(ni) & set(nm)
+    oi, om = [n for n in ni if n in common], [n for n in nm if n in common]
+    ok = (oi == om)
+    mode = body.split(" ")[-1]
+    if ok and mode in ("strings", "rfc7049"):
+        key = (lambda h: bytes.fromhex(h)) if mode == "strings" else (lambda h: (len(h) // 2, bytes.fromhex(h)))
+        ok = (ni == sorted(ni, key=key))
+    return dict(corr_ok=ok, prop_ok=ok, nontrivial=len(ni) >= 2, bucket=mode,
+                why="" if ok else "autogenerated fields come in order %s, mode %s prescribes %s" % (",".join(ni)[:100], mode, ",".join(om)[:100]))
+RULES["sortmodes"] = rule_sortmodes
+PROPS["C09"]["streams"].append(dict(name="numbytes", gen="numbytes", rule="roundtrip"))
+PROPS["C09"]["rule_text"] += ("; numbytes: the same boundary integers on the wire - CBOR heads of major types 0 and 1 in shortest and 8-byte "
+    "form, JSON texts with sign, fraction and exponent - through the real Unmarshal into every numeric kind, pointers, slices and untyped "
+    "slots; stored value compared with the decoder+unmarshaller model and with an exact rational-arithmetic oracle")
+PROPS["C08"]["streams"].append(dict(name="sortmodes", gen="sortmodes", rule="sortmodes"))
+PROPS["C08"]["rule_text"] += ("; sortmodes: zoo and generated struct types autogenerated under the three field-sort modes in every sequence of "
+    "modes (history independence), order of the mapped names compared with the Lean model's and with the mode's comparator")
 
 def _isdef(body, i):
     return i == "def" or body[:2] in ("T ", "A ", "Y ")
@@ -492,6 +533,39 @@ for _pid, _name, _rule, _title in (("C12", "remarshal", "remarshal", "re-marshal
         level="proof", lean_module="RefmtProofs.Props." + _pid, theorems=[],
         streams=[dict(name=_name, gen=_name, rule=_rule)], title=_title, claim="(work in progress)",
         rule_text="(see DESIGN.md)")
+PROPS["C10"].update(disabled=False, theorems=["Refmt.C10.pump_eq_batch_cbor_src", "Refmt.C10.pump_eq_batch_json_src", "Refmt.C10.j2c_pump",
+        "Refmt.C10.j2c_readback", "Refmt.C10.j2c_bounded", "Refmt.C10.c2j_accepts", "Refmt.C10.pump_src_error_cbor",
+        "Refmt.C10.pump_src_error_json"],
+    claim="Theorems: the lock-step pump model (decoder step, encoder step, repeat) over any sink produces exactly what decoding the "
+          "whole item first and then feeding its tokens to the sink produces (both decoders), and stops with the source's error when the "
+          "source rejects; JSON to CBOR: every JSON text the reference reader accepts is pumped to done, the bytes written are the RFC 7049 "
+          "encoding of the decoded tree, and (strings within the decoder's 32 MiB cap) the CBOR reference decoder reads that tree back; "
+          "CBOR to JSON: every item in the common data model is accepted by the JSON encoder. The statement without the cap is kept as "
+          "j2c_statement with its refutation. Tie: documents of both formats through the real TokenPump in all four pairings, through "
+          "the slow path (unmarshal to interface{} then marshal) and through the command-line converter as a subprocess.",
+    rule_text="documents (grammar-generated, mutated, truncated, with trailing data) x {cbor,json} source x {cbor,json,pretty json} sink "
+              "through shared.TokenPump, compared with the lock-step pump model, with decode-all-then-encode, with the slow path through "
+              "interface{} (common data model only, duplicate keys excluded) and with the refmt command-line converter run as a "
+              "subprocess (binary and .hex flavours); non-trivial = pump succeeded with more than 2 bytes")
+PROPS["C10"].pop("na_reason", None)
+PROPS["C11"].update(disabled=False, theorems=["Refmt.C11.clone_equal_plain", "Refmt.C11.norm_plain_id", "Refmt.C11.clone_equal_plain_noptr",
+        "Refmt.C11.norm_plain_ptr", "Refmt.C11.clone_equal_struct_rt", "Refmt.C11.clone_equal_struct_fixed", "Refmt.C11.clone_equal_struct_sorted",
+        "Refmt.C11.zeroStable_of_check"],
+    claim="Equality half, theorems: Clone in the model is the marshaller pumped straight into the unmarshaller; for every plain type and "
+          "for struct types with struct-map entries (one-step routes, distinct names, omitempty allowed; nested in slices, arrays, maps, "
+          "pointers) and every value of the type with distinct map keys, Clone succeeds and returns the specified value normV up to the "
+          "order in which the model lists map entries; on pointer-free plain types normV is the identity (Clone returns an equal value, "
+          "full stop); with pointers the only difference is that a pointer to something that serializes as null comes back nil. The "
+          "statement with order-sensitive equality inside struct fields is kept with its counterexample. Independence half: model values "
+          "are immutable, so sharing cannot be expressed or proved in the model; it is decided by the correspondence stream, whose oracle "
+          "mutates every reachable byte, element, entry and pointee of the destination and of the source in the real Go values and looks "
+          "for the change on the other side, for every generated value of every zoo type under every atlas (this is how the byte-slice "
+          "aliasing defect 11781f4 was found). Unions, transforms and untyped slots: equality by tie against normV.",
+    rule_text="values of the zoo types (every kind of mutable storage: byte slices and arrays at top level, in struct fields, map values, "
+              "slice elements, behind pointers, inside untyped slots; transforms, unions) x 5 atlases through the real CloneAtlased; result "
+              "compared with the model (marshalV then unmV) and with normV; oracle: source unchanged after the call; mutation probing of "
+              "every reachable location of copy and source for aliasing; non-trivial = successful clone of a value with more than 2 tokens")
+PROPS["C11"].pop("na_reason", None)
 
 def rule_autogen(body, I, M):
     i = I.get("I", "")
@@ -513,10 +587,19 @@ def rule_autogen(body, I, M):
 RULES["autogen"] = rule_autogen
 
 PROPS["C19"] = dict(
-    disabled=True, na_reason="model and correspondence tie built; theorems are being proved",
-    level="proof", lean_module="RefmtProofs.Props.C19", theorems=[],
+    level="proof", lean_module="RefmtProofs.Props.C19", theorems=["Refmt.C19.route_resolves", "Refmt.C19.names_distinct", "Refmt.C19.unexported_unmapped", "Refmt.C19.dash_unmapped",
+              "Refmt.C19.omitempty_recorded", "Refmt.C19.dominant_is_select", "Refmt.C19.sorted_by_mode", "Refmt.C19.explore_eq_promoted",
+              "Refmt.C19.explore_eq_promoted_all", "Refmt.C19.explore_eq_promoted_dag", "Refmt.C19.diamond_drops_ambiguous_name"],
     streams=[dict(name="autogen", gen="autogen", rule="autogen")],
-    title="autogenerated struct mappings follow Go's embedding and tag rules", claim="(work in progress)",
+    title="autogenerated struct mappings follow Go's embedding and tag rules", claim="Theorems (every type table - trees, diamonds, pointer and embedding cycles -, every sort mode): the breadth-first "
+          "field walk of the model maps exactly the fields Go's promotion rule selects (explore_eq_promoted_all: membership in "
+          "exploreFields <-> membership in the promotion-rule spec `promoted`, no hypothesis): shallowest depth wins, a tagged field beats "
+          "untagged ones at that depth, two or more candidates annihilate the name; every mapped field's route resolves to the field it "
+          "names; names are pairwise distinct; unexported, '-'-tagged and unsettable fields are never mapped; omitempty is recorded; the "
+          "result is sorted by the requested mode. The diamond S{A;B} A{C} B{C} C{D} D{X} found while proving (multiplicity was counted for "
+          "one level only) was repaired in /repo (2ce7cc7); diamond_drops_ambiguous_name pins the repaired behaviour. Tie: 402 generated "
+          "struct families compiled into the harness, real exploreFields vs Lean BFS model vs Lean promotion spec vs an independent Go "
+          "promotion oracle; then values round-tripped through the autogenerated atlases.",
     rule_text="400 generated families (1674 struct types, compiled Go source: up to 3 levels of embedding by value and by pointer, "
               "exported and unexported embedded types, shared sub-structs (diamonds), embedded non-struct types, colliding names and tags, "
               "'-' and ',omitempty', invalid tag names, non-ASCII field names) plus the zoo structs x 3 sort modes; mapping compared with the "
@@ -545,10 +628,9 @@ def rule_hist(body, I, M):
 RULES["hist"] = rule_hist
 
 PROPS["C17"] = dict(
-    disabled=True, na_reason="model and correspondence tie built; theorems are being proved",
-    level="proof", lean_module="RefmtProofs.Props.C17", theorems=[],
+    level="proof", lean_module="RefmtProofs.Props.C17", theorems=['Refmt.C17.reset_is_fresh', 'Refmt.C17.cbor_one_item', 'Refmt.C17.frame_cbor', 'Refmt.C17.frame_json'],
     streams=[dict(name="hist", gen="hist", rule="hist")],
-    title="reused instances equal fresh ones; items frame cleanly", claim="(work in progress)",
+    title="reused instances equal fresh ones; items frame cleanly", claim="Theorems: Reset puts every codec machine model into exactly its initial state (so a reused instance is a fresh one); items written back to back by one encoder are read back one by one by one decoder over one reader, each call consuming exactly its item (CBOR: to the byte; JSON: up to the single look-ahead byte after a number, which stays in the reader's push-back and is whitespace/the next item's separator), for every list of well-formed items. The object-layer models are pure functions of (atlas, type, input), i.e. they have no state to carry over; that the real Marshaller/Unmarshaller/Cloner instances behave like them after any history, including failed calls, is what the hist correspondence stream checks (every call on a long-lived instance vs a fresh instance vs the model).",
     rule_text="histories of 1..40 (thorough 400) calls on long-lived Marshaller / Unmarshaller / Cloner instances (one per atlas, four "
               "atlases mapping the same Go types differently, interleaved), with calls that fail (unrepresentable values, wrong-kind items, "
               "types without mapping); every call also run on a fresh instance (oracle) and on the stateless model; and streams of 2..20 items "
@@ -588,10 +670,10 @@ def rule_untrusted(body, I, M):
 RULES["untrusted"] = rule_untrusted
 
 PROPS["C06"] = dict(
-    disabled=True, na_reason="model and correspondence tie built; theorems are being proved",
-    level="proof", lean_module="RefmtProofs.Props.C06", theorems=[],
+    level="proof",
+    extra_modules=["RefmtProofs.Props.C13"], lean_module="RefmtProofs.Props.C06", theorems=['Refmt.C06.cbor_terminates', 'Refmt.C06.json_terminates', 'Refmt.C06.cbor_steps_bound', 'Refmt.C06.json_steps_bound', 'Refmt.C06.cbor_alloc_bound', 'Refmt.C06.cbor_terminates_any_reader', 'Refmt.C06.json_terminates_any_reader', 'Refmt.C06.cbor_alloc_bound_any_reader', 'Refmt.C06.cbor_alloc_bound_consumed', 'Refmt.C06.sinks_never_panic', 'Refmt.C13.total_fixed'],
     streams=[dict(name="untrusted", gen="untrusted", rule="untrusted")],
-    title="decoding untrusted bytes never panics, hangs or over-allocates", claim="(work in progress)",
+    title="decoding untrusted bytes never panics, hangs or over-allocates", claim="Theorems (every byte string, every reader incl. faults): the decoder machine models have finished within 2|input|+2 token steps (more fuel changes nothing: tokens, outcome, reader, step and allocation counters), so they return a value or an error, never loop; the bytes the CBOR model allocates at its make sites are <= 2*32MiB + 8|input| + 64 whatever lengths the input declares (the constants are tight: kernel-checked witnesses); every token a decoder can emit is handled by every encoder without panic; the object unmarshaller model has no reachable panic outcome under a consistent atlas (C13.total_fixed). Tie: per call on the real code: recover, token-step count against 2n+2 and against the model's exact count, runtime.MemStats.TotalAlloc with the GC off against the bound, outcome class against the model. Go-runtime panics that the models do not represent as an outcome (index out of range, nil dereference) are observed by the tie only.",
     rule_text="random bytes, structure-biased and mutated/truncated CBOR and JSON documents, adversarial length headers (up to 2^64-1) on every "
               "major type with and without data behind them and inside indefinite strings / nested containers, nesting 20000 deep, x 23 "
               "target types (untyped, maps, slices, fixed arrays, structs, pointers, unions, tagged types, unmappable types) x 5 atlases, and "
